@@ -183,6 +183,15 @@ ReportMdns(vis, ra) ==
     /\ UNCHANGED <<started, shut, auto, conns>>
 
 L(r) == lastAct' = r
+\* what the hub's connections do (and Start): the part of the alphabet that stores pairing details from below
+ActConn ==
+       \/ (Start /\ L([a |-> "Start"]))
+       \/ \E k \in Skis, s \in {"ServerWait", "PendingListen", "InitStart"} : (NewConn(k, s) /\ L([a |-> "NewConn", k |-> k, s |-> s]))
+       \/ \E i \in 1..Len(conns) :
+             \/ \E s \in ShipStates \ {"Error", "InitStart"} : (StateUpdate(i, s, FALSE) /\ L([a |-> "StateUpdate", i |-> i, s |-> s, e |-> FALSE]))
+             \/ (StateUpdate(i, "Error", TRUE) /\ L([a |-> "StateUpdate", i |-> i, s |-> "Error", e |-> TRUE]))
+             \/ (ShipId(i) /\ L([a |-> "ShipId", i |-> i]))
+             \/ (Setup(i) /\ L([a |-> "Setup", i |-> i]))
 Act == \/ (Start /\ L([a |-> "Start"])) \/ (Shutdown /\ L([a |-> "Shutdown"]))
        \/ \E b \in BOOLEAN : (SetAuto(b) /\ L([a |-> "SetAuto", b |-> b]))
        \/ \E k \in Skis, sp \in Spellings :
@@ -206,7 +215,8 @@ Proj == [ started |-> started', shut |-> shut', auto |-> auto',
           svc |-> [k \in Skis |-> [trusted |-> svc'[k].trusted, paired |-> svc'[k].trusted, dstate |-> svc'[k].dstate, derr |-> svc'[k].derr,
                                    reg |-> svc'[k].reg, cnt |-> svc'[k].cnt]],
           out |-> out' ]
-Next == /\ Act
+\* GenMode "conns": behaviours of connection events only (several services reporting states side by side, no user operation)
+Next == /\ (IF GenMode = "conns" THEN ActConn ELSE Act)
         /\ hist' = IF EmitMode = "none" THEN hist ELSE Append(hist, [a |-> lastAct', x |-> Proj])
 Spec == Init /\ [][Next]_vars
 
